@@ -281,9 +281,8 @@ cJSON *change_state(const struct peer *p, const cJSON *request)
 
 	cJSON_Delete(e->value);
 	e->value = value_copy;
-	if (unlikely(notify_fetchers(e, "change") != 0)) {
-		return create_error_response_from_request(p, request, INTERNAL_ERROR, "could not notify fetching peer", path);
-	}
+	/* The state is changed. A subscriber that couldn't be notified is that subscriber's problem. */
+	notify_fetchers(e, "change");
 
 	return create_success_response_from_request(p, request);
 }
@@ -403,11 +402,8 @@ cJSON *add_element_to_peer(struct peer *p, const cJSON *request)
 		return create_error_response_from_request(p, request, INTERNAL_ERROR, "reason", "element table full");
 	}
 
-	if (unlikely(find_fetchers_for_element(e) != 0)) {
-		element_table_remove(e->path);
-		free_element(e);
-		return create_error_response_from_request(p, request, INTERNAL_ERROR, "reason", "could not notify fetching peer");
-	}
+	/* The element exists. A subscriber that couldn't be notified is that subscriber's problem. */
+	find_fetchers_for_element(e);
 
 	list_add_tail(&e->element_list, &p->element_list);
 
